@@ -31,6 +31,19 @@ Section Rename.
     (exists pre rest, nl = pre ++ rest /\ ci_labels rest sl /\ (sfx = true \/ pre = []) /\ nl' = pre ++ tl) \/
     ((forall pre rest, nl = pre ++ rest -> ci_labels rest sl -> ~ (sfx = true \/ pre = [])) /\ nl' = nl).
 
+  (** the name would exceed 255 bytes once its matching suffix is replaced *)
+  Definition overflows (nl : list bytes) : Prop :=
+    exists pre rest, nl = pre ++ rest /\ ci_labels rest sl /\ (sfx = true \/ pre = []) /\ 255 < length (labels_flat pre) + length (wire_of_labels tl).
+
+  Definition rec_overflows (rx : rec_view * rd_view) : Prop :=
+    overflows (rv_labels (fst rx)) \/
+    match snd rx with
+    | RdName a => overflows a
+    | RdMx _ a => overflows a
+    | RdSoa a b _ => overflows a \/ overflows b
+    | RdRaw _ => False
+    end.
+
   Lemma ci_dec : forall a b : list bytes, {ci_labels a b} + {~ ci_labels a b}.
   Proof.
     induction a as [|x a IH]; intros [|y b].
@@ -63,13 +76,21 @@ Section Rename.
     - right. intros pre rest E H _. destruct (Huniq pre rest E H) as (_ & _ & Hl). lia.
   Qed.
 
+  Lemma split_unique (nl pre rest pre' rest' : list bytes) : nl = pre ++ rest -> ci_labels rest sl -> nl = pre' ++ rest' -> ci_labels rest' sl -> pre = pre'.
+  Proof.
+    intros E H E' H'. pose proof (F2_length _ _ _ H) as L. pose proof (F2_length _ _ _ H') as L'.
+    assert (Lp : length pre = length pre').
+    { apply (f_equal (@length _)) in E. apply (f_equal (@length _)) in E'. rewrite app_length in E, E'. unfold bytes in *. lia. }
+    rewrite E in E'. apply app_eq_len in E'; [apply E'|exact Lp].
+  Qed.
+
   Variable p : bytes.
   Hypothesis Hb : bytes_ok p.
 
   (** one name *)
   Lemma cwrn off ls e d out : cname_l p off ls e -> sd_wf d ->
-    copy_with_replaced_name out p off d (wire_of_labels tl) (wire_of_labels sl) sfx = Err InvalidName \/
-    exists ls' enc d', renamed ls ls' /\
+    (copy_with_replaced_name out p off d (wire_of_labels tl) (wire_of_labels sl) sfx = Err InvalidName /\ overflows ls) \/
+    exists ls' enc d', renamed ls ls' /\ ~ overflows ls /\
       copy_with_replaced_name out p off d (wire_of_labels tl) (wire_of_labels sl) sfx = Ok (out ++ enc, d') /\
       sd_wf d' /\ bytes_ok enc /\ length enc <= 255 /\ (d = sd_new -> enc = wire_of_labels ls') /\
       forall O, length O = length out -> dict_inv d O -> name_enc (O ++ enc) (length O) ls' (length O + length enc) /\ dict_inv d' (O ++ enc).
@@ -90,16 +111,20 @@ Section Rename.
       rewrite <- LO in Hdec. split; [exists l2; split; assumption|exact Hd']. }
     destruct (match_dec ls) as [[[pre rest] (E & Hci & Hmode)]|Hno]; cbn [fst snd] in *.
     - rewrite (replace_raw_match ls sl tl sfx Hlab Hsl Htl Hsl0 Htl0 pre rest E Hci Hmode).
-      destruct (DNS_MAX_HOSTNAME_LEN <? length (labels_flat pre) + length (wire_of_labels tl)) eqn:Eo; [left; reflexivity|right].
+      destruct (DNS_MAX_HOSTNAME_LEN <? length (labels_flat pre) + length (wire_of_labels tl)) eqn:Eo;
+        [left; split; [reflexivity|exists pre, rest; unfold DNS_MAX_HOSTNAME_LEN in Eo; repeat split; try assumption; lia]|right].
       assert (Hl' : Forall lab (pre ++ tl)) by (apply Forall_app; split; [rewrite E in Hlab; apply Forall_app in Hlab; apply Hlab|exact Htl]).
       assert (Hlen' : length (wire_of_labels (pre ++ tl)) <= 255) by (rewrite wire_app, app_length; unfold DNS_MAX_HOSTNAME_LEN in Eo; lia).
       assert (Hb' : bytes_ok (wire_of_labels (pre ++ tl))).
       { rewrite wire_app. apply bytes_ok_app; [|exact Htb]. rewrite E, wire_app in Hbw. apply Forall_app in Hbw. apply Hbw. }
       destruct (Hemit _ Hl' Hlen' Hb') as (enc & d' & Hc & Hwf' & Hbe & Hle & Hnew & HO).
-      cbn [bind]. rewrite Hc. exists (pre ++ tl), enc, d'. split; [left; exists pre, rest; auto|]. split; [reflexivity|]. auto.
+      cbn [bind]. rewrite Hc. exists (pre ++ tl), enc, d'. split; [left; exists pre, rest; auto|].
+      split; [intros (pre' & rest' & E' & Hci' & _ & Hov); rewrite (split_unique ls pre rest pre' rest' E Hci E' Hci') in Eo; unfold DNS_MAX_HOSTNAME_LEN in Eo; lia|].
+      split; [reflexivity|]. auto.
     - rewrite (replace_raw_no_match ls sl tl sfx Hlab Hsl Htl Hsl0 Htl0 Hno). right.
       destruct (Hemit _ Hlab Hl255 Hbw) as (enc & d' & Hc & Hwf' & Hbe & Hle & Hnew & HO).
-      cbn [bind]. rewrite Hc. exists ls, enc, d'. split; [right; split; [exact Hno|reflexivity]|]. split; [reflexivity|]. auto.
+      cbn [bind]. rewrite Hc. exists ls, enc, d'. split; [right; split; [exact Hno|reflexivity]|].
+      split; [intros (pre' & rest' & E' & Hci' & Hm' & _); exact (Hno pre' rest' E' Hci' Hm')|]. split; [reflexivity|]. auto.
   Qed.
 
   (** one record *)
@@ -123,8 +148,8 @@ Section Rename.
   Proof. rewrite skipn_firstn_comm. f_equal. lia. Qed.
 
   Lemma rename_record_content acc r x sec left done : record_at p r (rv_end r) -> rdata_at p r x -> cinv p Q done acc ->
-    rename_response_record v (wire_of_labels tl) (wire_of_labels sl) sfx acc (it_on sec r (rv_end r) left) = Err InvalidName \/
-    exists acc' rx', ren_rec (r, x) rx' /\
+    (rename_response_record v (wire_of_labels tl) (wire_of_labels sl) sfx acc (it_on sec r (rv_end r) left) = Err InvalidName /\ rec_overflows (r, x)) \/
+    exists acc' rx', ren_rec (r, x) rx' /\ ~ rec_overflows (r, x) /\
       rename_response_record v (wire_of_labels tl) (wire_of_labels sl) sfx acc (it_on sec r (rv_end r) left) = Ok acc' /\
       cinv p Q (done ++ [rx']) acc'.
   Proof.
@@ -134,8 +159,8 @@ Section Rename.
     assert (Hrl16 : (N.of_nat (rv_rdlen r) < 65536)%N) by exact (u16_lt p _ _ Hb Hu16).
     unfold rename_response_record. cbn [it_on it_offset it_name_end unwrap bind]. rewrite Hpk.
     set (ne := rv_name_end r) in *.
-    destruct (cwrn (rv_off r) (rv_labels r) ne d out Hcn Hwf) as [Herr|(ls' & enc & d1 & Hren & Hc & Hwf1 & Hbe & Hle1 & _ & HO)];
-      [left; rewrite Herr; reflexivity|].
+    destruct (cwrn (rv_off r) (rv_labels r) ne d out Hcn Hwf) as [[Herr Hov]|(ls' & enc & d1 & Hren & Hnov0 & Hc & Hwf1 & Hbe & Hle1 & _ & HO)];
+      [left; split; [rewrite Herr; reflexivity|left; exact Hov]|].
     rewrite Hc. cbn [bind]. unfold DNS_RR_HEADER_SIZE, DNS_RR_RDLEN_OFFSET.
     destruct (length p <? ne + 10) eqn:Elen; [lia|].
     rewrite slice_eq by lia. replace (ne + 10 - ne) with 10 by lia. cbn [bind].
@@ -150,14 +175,14 @@ Section Rename.
     assert (S2 : forall W Y, seg (out1 ++ h8 ++ W ++ Y) (length out1 + 8) W).
     { intros W Y. exists (out1 ++ h8), Y. split; [rewrite <- app_assoc; reflexivity|rewrite app_length; lia]. }
     (* how a finished record is reported, whatever its data *)
-    assert (Hfin : forall R d' x', ren_rd x x' -> sd_wf d' -> dict_inv d' (out1 ++ R) -> bytes_ok R -> 10 <= length R ->
+    assert (Hfin : forall R d' x', ren_rd x x' -> ~ rec_overflows (r, x) -> sd_wf d' -> dict_inv d' (out1 ++ R) -> bytes_ok R -> 10 <= length R ->
                (N.of_nat (length R - 10) < 65536)%N ->
                seg (out1 ++ R) (length out1) h8 -> seg (out1 ++ R) (length out1 + 8) (be16_bytes (N.of_nat (length R - 10))) ->
                rdata_enc (out1 ++ R) (length out1 + 10) x' (length out1 + length R) ->
-               exists acc' rx', ren_rec (r, x) rx' /\ Ok (out1 ++ R, d') = Ok acc' /\ cinv p Q (done ++ [rx']) acc').
-    { intros R d' x' Hrx Hwf' Hd' HbR HR10 HR16 Hs8 Hs2 Hrd.
+               exists acc' rx', ren_rec (r, x) rx' /\ ~ rec_overflows (r, x) /\ Ok (out1 ++ R, d') = Ok acc' /\ cinv p Q (done ++ [rx']) acc').
+    { intros R d' x' Hrx Hnov Hwf' Hd' HbR HR10 HR16 Hs8 Hs2 Hrd.
       exists (out1 ++ R, d'), (rv_with_labels r ls', x'). split; [split; [exists ls'; split; [exact Hren|reflexivity]|exact Hrx]|].
-      split; [reflexivity|]. unfold cinv. cbn [fst snd]. split; [exact Hwf'|]. split; [exact Hd'|].
+      split; [exact Hnov|]. split; [reflexivity|]. unfold cinv. cbn [fst snd]. split; [exact Hwf'|]. split; [exact Hd'|].
       split; [|split; [apply bytes_ok_app; [apply bytes_ok_app; [exact Hbout|exact Hbe]|exact HbR]|exists ((X ++ enc) ++ R); unfold out1; rewrite EX, <- !app_assoc; reflexivity]].
       apply (recs_enc_snoc p _ done _ (length out)).
       - unfold out1. rewrite <- app_assoc. apply recs_enc_app. exact Hrecs.
@@ -171,8 +196,8 @@ Section Rename.
     destruct x as [ls|pref ls|l1 l2 tail|b].
     - (* one name *)
       destruct Hx as (Hnt & Hcn2). change (PacketSpec.is_name_type (rv_type r)) with (Uncompress.is_name_type (rv_type r)) in Hnt. rewrite Hnt.
-      destruct (cwrn (ne + 10) ls _ d1 (out1 ++ h8 ++ h2) Hcn2 Hwf1) as [Herr|(ls2 & enc2 & d2 & Hren2 & Hc2 & Hwf2 & Hbe2 & Hle2 & _ & HO2)];
-        [left; rewrite Herr; reflexivity|right].
+      destruct (cwrn (ne + 10) ls _ d1 (out1 ++ h8 ++ h2) Hcn2 Hwf1) as [[Herr Hov]|(ls2 & enc2 & d2 & Hren2 & Hnov2 & Hc2 & Hwf2 & Hbe2 & Hle2 & _ & HO2)];
+        [left; split; [rewrite Herr; reflexivity|right; exact Hov]|right].
       rewrite Hc2. cbn [bind]. unfold usub.
       match goal with |- context [?a <=? ?b] => destruct (a <=? b) eqn:Eu; [|rewrite !app_length in Eu; lia] end. cbn [bind].
       replace ((out1 ++ h8 ++ h2) ++ enc2) with (out1 ++ h8 ++ h2 ++ enc2) by (rewrite <- !app_assoc; reflexivity).
@@ -181,7 +206,7 @@ Section Rename.
       assert (LW : length W = 2) by apply be16_bytes_length.
       destruct (HO2 (out1 ++ h8 ++ W)) as [Hn2 Hd2]; [rewrite !app_length; lia|apply dict_inv_app; exact Hd1|].
       replace ((out1 ++ h8 ++ W) ++ enc2) with (out1 ++ h8 ++ W ++ enc2) in * by (rewrite <- !app_assoc; reflexivity).
-      apply (Hfin (h8 ++ W ++ enc2) d2 (RdName ls2) Hren2 Hwf2 Hd2).
+      apply (Hfin (h8 ++ W ++ enc2) d2 (RdName ls2) Hren2 ltac:(intros [H|H]; [exact (Hnov0 H)|exact (Hnov2 H)]) Hwf2 Hd2).
       + apply bytes_ok_app; [apply bytes_ok_seg; exact Hb|apply bytes_ok_app; [apply bytes_ok_be16|exact Hbe2]].
       + rewrite !app_length. lia.
       + rewrite !app_length. lia.
@@ -195,8 +220,8 @@ Section Rename.
       assert (Emx : (rv_type r =? TYPE_MX)%N = true) by (rewrite Hmx; reflexivity). rewrite Hnt, Emx.
       rewrite slice_eq by lia. replace (ne + 10 + 2 - (ne + 10)) with 2 by lia. rewrite <- Hpref. cbn [bind].
       assert (Lpref : length pref = 2) by (rewrite Hpref, firstn_length, skipn_length; lia).
-      destruct (cwrn (ne + 10 + 2) ls _ d1 ((out1 ++ h8 ++ h2) ++ pref) Hcn2 Hwf1) as [Herr|(ls2 & enc2 & d2 & Hren2 & Hc2 & Hwf2 & Hbe2 & Hle2 & _ & HO2)];
-        [left; rewrite Herr; reflexivity|right].
+      destruct (cwrn (ne + 10 + 2) ls _ d1 ((out1 ++ h8 ++ h2) ++ pref) Hcn2 Hwf1) as [[Herr Hov]|(ls2 & enc2 & d2 & Hren2 & Hnov2 & Hc2 & Hwf2 & Hbe2 & Hle2 & _ & HO2)];
+        [left; split; [rewrite Herr; reflexivity|right; exact Hov]|right].
       rewrite Hc2. cbn [bind]. unfold usub.
       match goal with |- context [?a <=? ?b] => destruct (a <=? b) eqn:Eu; [|rewrite !app_length in Eu; lia] end. cbn [bind].
       replace (((out1 ++ h8 ++ h2) ++ pref) ++ enc2) with (out1 ++ h8 ++ h2 ++ pref ++ enc2) by (rewrite <- !app_assoc; reflexivity).
@@ -205,7 +230,7 @@ Section Rename.
       assert (LW : length W = 2) by apply be16_bytes_length.
       destruct (HO2 (out1 ++ h8 ++ W ++ pref)) as [Hn2 Hd2]; [rewrite !app_length; lia|apply dict_inv_app; exact Hd1|].
       replace ((out1 ++ h8 ++ W ++ pref) ++ enc2) with (out1 ++ h8 ++ W ++ pref ++ enc2) in * by (rewrite <- !app_assoc; reflexivity).
-      apply (Hfin (h8 ++ W ++ pref ++ enc2) d2 (RdMx pref ls2) (conj eq_refl Hren2) Hwf2 Hd2).
+      apply (Hfin (h8 ++ W ++ pref ++ enc2) d2 (RdMx pref ls2) (conj eq_refl Hren2) ltac:(intros [H|H]; [exact (Hnov0 H)|exact (Hnov2 H)]) Hwf2 Hd2).
       + apply bytes_ok_app; [apply bytes_ok_seg; exact Hb|apply bytes_ok_app; [apply bytes_ok_be16|apply bytes_ok_app; [rewrite Hpref; apply bytes_ok_seg; exact Hb|exact Hbe2]]].
       + rewrite !app_length. lia.
       + rewrite !app_length. lia.
@@ -226,14 +251,14 @@ Section Rename.
       unfold raw_name_len.
       pose proof (rl_first_segment p (ne + 10) _ _ _ _ _ _ _ (proj2 Hc1) (le_n _) (length (skipn (ne + 10) p) + 1) ltac:(rewrite skipn_length; lia)) as Hr1.
       rewrite Nat.sub_diag in Hr1. rewrite Hr1. cbn [bind].
-      destruct (cwrn (ne + 10) l1 m d1 (out1 ++ h8 ++ h2) Hc1 Hwf1) as [Herr|(la & enc1 & d2 & Hren1 & Hcc1 & Hwf2 & Hbe1 & Hle1' & _ & HO1)];
-        [left; rewrite Herr; reflexivity|].
+      destruct (cwrn (ne + 10) l1 m d1 (out1 ++ h8 ++ h2) Hc1 Hwf1) as [[Herr Hov]|(la & enc1 & d2 & Hren1 & Hnov1 & Hcc1 & Hwf2 & Hbe1 & Hle1' & _ & HO1)];
+        [left; split; [rewrite Herr; reflexivity|right; left; exact Hov]|].
       rewrite Hcc1. cbn [bind]. replace (ne + 10 + (m - (ne + 10))) with m by lia.
       destruct (m <=? length p) eqn:E2; [|lia]. cbn [bind].
       pose proof (rl_first_segment p m _ _ _ _ _ _ _ (proj2 Hc2) (le_n _) (length (skipn m p) + 1) ltac:(rewrite skipn_length; lia)) as Hr2.
       rewrite Nat.sub_diag in Hr2. rewrite Hr2. cbn [bind].
-      destruct (cwrn m l2 _ d2 ((out1 ++ h8 ++ h2) ++ enc1) Hc2 Hwf2) as [Herr|(lb & enc2 & d3 & Hren2 & Hcc2 & Hwf3 & Hbe2 & Hle2' & _ & HO2)];
-        [left; rewrite Herr; reflexivity|right].
+      destruct (cwrn m l2 _ d2 ((out1 ++ h8 ++ h2) ++ enc1) Hc2 Hwf2) as [[Herr Hov]|(lb & enc2 & d3 & Hren2 & Hnov2 & Hcc2 & Hwf3 & Hbe2 & Hle2' & _ & HO2)];
+        [left; split; [rewrite Herr; reflexivity|right; right; exact Hov]|right].
       rewrite Hcc2. cbn [bind]. replace (m + (ne + 10 + rv_rdlen r - 20 - m)) with (ne + 10 + rv_rdlen r - 20) by lia.
       rewrite slice_eq by lia. replace (ne + 10 + rv_rdlen r - 20 + 20 - (ne + 10 + rv_rdlen r - 20)) with 20 by lia. rewrite <- Htail. cbn [bind].
       unfold usub.
@@ -245,7 +270,7 @@ Section Rename.
       destruct (HO1 (out1 ++ h8 ++ W)) as [Hn1 Hd2]; [rewrite !app_length; lia|apply dict_inv_app; exact Hd1|].
       destruct (HO2 ((out1 ++ h8 ++ W) ++ enc1)) as [Hn2 Hd3]; [rewrite !app_length; lia|exact Hd2|].
       replace (((out1 ++ h8 ++ W) ++ enc1) ++ enc2) with (out1 ++ h8 ++ W ++ enc1 ++ enc2) in * by (rewrite <- !app_assoc; reflexivity).
-      apply (Hfin (h8 ++ W ++ enc1 ++ enc2 ++ tail) d3 (RdSoa la lb tail) (conj Hren1 (conj Hren2 eq_refl)) Hwf3).
+      apply (Hfin (h8 ++ W ++ enc1 ++ enc2 ++ tail) d3 (RdSoa la lb tail) (conj Hren1 (conj Hren2 eq_refl)) ltac:(intros [H|[H|H]]; [exact (Hnov0 H)|exact (Hnov1 H)|exact (Hnov2 H)]) Hwf3).
       + replace (out1 ++ h8 ++ W ++ enc1 ++ enc2 ++ tail) with ((out1 ++ h8 ++ W ++ enc1 ++ enc2) ++ tail) by (rewrite <- !app_assoc; reflexivity).
         apply dict_inv_app. exact Hd3.
       + apply bytes_ok_app; [apply bytes_ok_seg; exact Hb|apply bytes_ok_app; [apply bytes_ok_be16|apply bytes_ok_app; [exact Hbe1|apply bytes_ok_app; [exact Hbe2|rewrite Htail; apply bytes_ok_seg; exact Hb]]]].
@@ -272,7 +297,7 @@ Section Rename.
       unfold rdata_of in Eb. fold ne in Eb. rewrite <- Eb.
       assert (Lb : length b = rv_rdlen r) by (rewrite Eb; rewrite firstn_length, skipn_length; lia).
       right. replace ((out1 ++ h8 ++ h2) ++ b) with (out1 ++ h8 ++ h2 ++ b) by (rewrite <- !app_assoc; reflexivity).
-      apply (Hfin (h8 ++ h2 ++ b) d1 (RdRaw b) eq_refl Hwf1).
+      apply (Hfin (h8 ++ h2 ++ b) d1 (RdRaw b) eq_refl ltac:(intros [H|H]; [exact (Hnov0 H)|exact H]) Hwf1).
       + apply dict_inv_app. exact Hd1.
       + apply bytes_ok_app; [apply bytes_ok_seg; exact Hb|apply bytes_ok_app; [apply bytes_ok_seg; exact Hb|rewrite Eb; apply bytes_ok_seg; exact Hb]].
       + rewrite !app_length. lia.
@@ -287,34 +312,34 @@ Section Rename.
   (** a section *)
   Lemma walk_ren : forall lx off e, records_at p off (map fst lx) e -> Forall (rd_ok p) lx ->
     forall fuel sec r0 x0 done acc, length lx < fuel -> record_at p r0 off -> rdata_at p r0 x0 -> cinv p Q done acc ->
-    walk_fold fuel (r_next_including_opt v) (rename_response_record v (wire_of_labels tl) (wire_of_labels sl) sfx)
-              (Some (it_on sec r0 off (length lx))) acc = Err InvalidName \/
-    exists acc' L', Forall2 ren_rec ((r0, x0) :: lx) L' /\
+    (walk_fold fuel (r_next_including_opt v) (rename_response_record v (wire_of_labels tl) (wire_of_labels sl) sfx)
+              (Some (it_on sec r0 off (length lx))) acc = Err InvalidName /\ Exists rec_overflows ((r0, x0) :: lx)) \/
+    exists acc' L', Forall2 ren_rec ((r0, x0) :: lx) L' /\ Forall (fun rx => ~ rec_overflows rx) ((r0, x0) :: lx) /\
       walk_fold fuel (r_next_including_opt v) (rename_response_record v (wire_of_labels tl) (wire_of_labels sl) sfx)
                 (Some (it_on sec r0 off (length lx))) acc = Ok acc' /\ cinv p Q (done ++ L') acc'.
   Proof.
     induction lx as [|[r x] lx IH]; intros off e Hl Hg fuel sec r0 x0 done acc Hfuel Hr0 Hx0 Hinv;
       (destruct fuel as [|fuel]; [cbn in Hfuel; lia|]); cbn [walk_fold];
       pose proof (record_at_end _ _ _ Hr0) as (Eoff & _); rewrite Eoff in Hr0 |- *.
-    - destruct (rename_record_content acc r0 x0 sec (length (@nil (rec_view * rd_view))) done Hr0 Hx0 Hinv) as [Herr|(acc1 & rx' & Hren & Hc1 & Hinv1)];
-        [left; rewrite Herr; reflexivity|right].
+    - destruct (rename_record_content acc r0 x0 sec (length (@nil (rec_view * rd_view))) done Hr0 Hx0 Hinv) as [[Herr Hov]|(acc1 & rx' & Hren & Hnov & Hc1 & Hinv1)];
+        [left; split; [rewrite Herr; reflexivity|left; exact Hov]|right].
       rewrite Hc1. cbn [bind length]. rewrite (incl_end v). cbn [bind]. rewrite walk_fold_None.
-      exists acc1, [rx']. split; [constructor; [exact Hren|constructor]|]. split; [reflexivity|exact Hinv1].
-    - destruct (rename_record_content acc r0 x0 sec (length ((r, x) :: lx)) done Hr0 Hx0 Hinv) as [Herr|(acc1 & rx' & Hren & Hc1 & Hinv1)];
-        [left; rewrite Herr; reflexivity|].
+      exists acc1, [rx']. split; [constructor; [exact Hren|constructor]|]. split; [constructor; [exact Hnov|constructor]|]. split; [reflexivity|exact Hinv1].
+    - destruct (rename_record_content acc r0 x0 sec (length ((r, x) :: lx)) done Hr0 Hx0 Hinv) as [[Herr Hov]|(acc1 & rx' & Hren & Hnov & Hc1 & Hinv1)];
+        [left; split; [rewrite Herr; reflexivity|left; exact Hov]|].
       rewrite Hc1. cbn [bind]. rewrite Eoff in Hl. cbn [map fst] in Hl. destruct (records_cons_inv p _ _ _ _ Hl) as (Hoff & Hr & Hl1).
       cbn [length]. rewrite <- (map_length fst lx). rewrite (incl_next p v Hpk sec r0 _ r (map fst lx) e I Hr Hl1 Hoff). cbn [bind]. rewrite map_length.
       destruct (IH (rv_end r) e Hl1 (Forall_inv_tail Hg) fuel sec r x (done ++ [rx']) acc1 ltac:(cbn in Hfuel; lia) Hr (Forall_inv Hg) Hinv1)
-        as [Herr|(acc' & L' & HF & Hw & Hinv')]; [left; exact Herr|right].
-      exists acc', (rx' :: L'). split; [constructor; assumption|]. split; [exact Hw|]. rewrite <- app_assoc in Hinv'. exact Hinv'.
+        as [[Herr Hov]|(acc' & L' & HF & HNo & Hw & Hinv')]; [left; split; [exact Herr|right; exact Hov]|right].
+      exists acc', (rx' :: L'). split; [constructor; assumption|]. split; [constructor; assumption|]. split; [exact Hw|]. rewrite <- app_assoc in Hinv'. exact Hinv'.
   Qed.
 
   Lemma section_ren (skip : bool) sec off lx e count done acc :
     records_at p off (map fst lx) e -> e <= length p -> count = N.of_nat (length lx) -> Forall (rd_ok p) lx -> hdr_sec p v sec count off ->
     (skip = true -> forallb non_opt (map fst lx) = true) -> cinv p Q done acc ->
-    (first <- (if skip then r_next v (it_new sec) else r_next_including_opt v (it_new sec)) ;;
-     walk_fold (walk_fuel p) (r_next_including_opt v) (rename_response_record v (wire_of_labels tl) (wire_of_labels sl) sfx) first acc) = Err InvalidName \/
-    exists acc' L', Forall2 ren_rec lx L' /\
+    ((first <- (if skip then r_next v (it_new sec) else r_next_including_opt v (it_new sec)) ;;
+     walk_fold (walk_fuel p) (r_next_including_opt v) (rename_response_record v (wire_of_labels tl) (wire_of_labels sl) sfx) first acc) = Err InvalidName /\ Exists rec_overflows lx) \/
+    exists acc' L', Forall2 ren_rec lx L' /\ Forall (fun rx => ~ rec_overflows rx) lx /\
       (first <- (if skip then r_next v (it_new sec) else r_next_including_opt v (it_new sec)) ;;
        walk_fold (walk_fuel p) (r_next_including_opt v) (rename_response_record v (wire_of_labels tl) (wire_of_labels sl) sfx) first acc) = Ok acc' /\
       cinv p Q (done ++ L') acc'.
@@ -338,7 +363,7 @@ Section Rename.
         rewrite (maybe_skip_spec p v Hpk sec r (rv_end r) (map fst lx') e false Hr Hl1 (nonopt_opt_ok _ Hno false)) by (rewrite Eo; discriminate).
         unfold after_skip. rewrite Eo, map_length. reflexivity. }
     rewrite Hfirst. destruct lx as [|[r x] lx'].
-    - cbn [bind]. rewrite walk_fold_None. right. exists acc, []. split; [constructor|]. split; [reflexivity|rewrite app_nil_r; exact Hinv].
+    - cbn [bind]. rewrite walk_fold_None. right. exists acc, []. split; [constructor|]. split; [constructor|]. split; [reflexivity|rewrite app_nil_r; exact Hinv].
     - cbn [bind]. cbn [map fst] in Hl. destruct (records_cons_inv p _ _ _ _ Hl) as (Hoff & Hr & Hl1).
       apply (walk_ren lx' (rv_end r) e Hl1 (Forall_inv_tail Hg) (walk_fuel p) sec r x done acc); [|exact Hr|exact (Forall_inv Hg)|exact Hinv].
       unfold walk_fuel. cbn [length] in Hspan. lia.
@@ -353,9 +378,11 @@ Theorem rename_content : forall p v sl tl sfx, bytes_ok p -> parse p = Ok v ->
   Forall lab sl -> Forall lab tl -> sl <> [] -> tl <> [] -> bytes_ok (wire_of_labels tl) ->
   length (wire_of_labels sl) <= 255 -> length (wire_of_labels tl) <= 255 ->
   exists qls qt lxa lxn lxr qe, reading p qls qt lxa lxn lxr /\ cname_l p 12 qls qe /\
-    (renamer_rename v (wire_of_labels tl) (wire_of_labels sl) sfx = Err InvalidName \/
+    ((renamer_rename v (wire_of_labels tl) (wire_of_labels sl) sfx = Err InvalidName /\
+      (overflows sl tl sfx qls \/ Exists (rec_overflows sl tl sfx) (lxa ++ lxn ++ lxr))) \/
      exists out qls' L' X, renamer_rename v (wire_of_labels tl) (wire_of_labels sl) sfx = Ok out /\ bytes_ok out /\
        renamed sl tl sfx qls qls' /\ Forall2 (ren_rec sl tl sfx) (lxa ++ lxn ++ lxr) L' /\
+       ~ overflows sl tl sfx qls /\ Forall (fun rx => ~ rec_overflows sl tl sfx rx) (lxa ++ lxn ++ lxr) /\
        out = (firstn 12 p ++ wire_of_labels qls' ++ firstn 4 (skipn qe p)) ++ X /\
        recs_enc p out (12 + length (wire_of_labels qls') + 4) L' (length out)).
 Proof.
@@ -390,7 +417,7 @@ Proof.
   destruct Hfuel as (f & Hf). rewrite Hf in ERES at 1. cbn [walk_fold] in ERES.
   unfold rename_question_record in ERES at 1. rewrite Hqoff in ERES. cbn [unwrap bind] in ERES. rewrite Hpk in ERES.
   destruct (cwrn sl tl sfx Hsl Htl Hsl0 Htl0 Htb p Hb 12 qls qe sd_new (firstn 12 p) Hcn ltac:(unfold sd_wf; cbn; lia))
-    as [Herr|(qls' & encq & dq & Hrenq & Hcq & Hwfq & Hbq & _ & Hnewq & HOq)]; [left; rewrite ERES, Herr; reflexivity|].
+    as [[Herr Hov]|(qls' & encq & dq & Hrenq & Hnovq & Hcq & Hwfq & Hbq & _ & Hnewq & HOq)]; [left; split; [rewrite ERES, Herr; reflexivity|left; exact Hov]|].
   rewrite Hcq in ERES. cbn [bind] in ERES. rewrite Hqne in ERES. unfold DNS_RR_QUESTION_HEADER_SIZE in ERES.
   destruct (length p <? qe + 4) eqn:E4; [lia|]. rewrite slice_eq in ERES by lia. replace (qe + 4 - qe) with 4 in ERES by lia. cbn [bind] in ERES.
   rewrite Hqend in ERES. cbn [bind] in ERES. rewrite walk_fold_None in ERES. cbn [bind] in ERES.
@@ -405,21 +432,126 @@ Proof.
     exists []. unfold Q. rewrite app_nil_r, <- app_assoc. reflexivity. }
   pose proof (records_at_span _ _ _ _ Rr) as Hsp3. pose proof (records_at_span _ _ _ _ Rn) as Hsp2.
   destruct (section_ren sl tl sfx Hsl Htl Hsl0 Htl0 Htb p Hb v Hpk Q true SAnswer (qe + 4) lxa e1 (N.of_nat (length lxa)) [] acc0 Ra ltac:(lia) eq_refl Hxa (conj Han Hoan) (fun _ => Hnoa) I0)
-    as [Herr|(acc1 & L1 & F1 & HA & I1)]; cbn [app] in *.
-  { left. rewrite ERES, (bind2 _ _ _ _ Herr). reflexivity. }
+    as [[Herr Hov]|(acc1 & L1 & F1 & N1 & HA & I1)]; cbn [app] in *.
+  { left. split; [rewrite ERES, (bind2 _ _ _ _ Herr); reflexivity|right; apply Exists_app; left; exact Hov]. }
   rewrite (bind2 _ _ _ _ HA) in ERES. cbn [bind] in ERES.
   destruct (section_ren sl tl sfx Hsl Htl Hsl0 Htl0 Htb p Hb v Hpk Q true SNameServers e1 lxn e2 (N.of_nat (length lxn)) L1 acc1 Rn ltac:(lia) eq_refl Hxn (conj Hns Hons) (fun _ => Hnon) I1)
-    as [Herr|(acc2 & L2 & F2 & HN & I2)].
-  { left. rewrite ERES, (bind2 _ _ _ _ Herr). reflexivity. }
+    as [[Herr Hov]|(acc2 & L2 & F2 & N2 & HN & I2)].
+  { left. split; [rewrite ERES, (bind2 _ _ _ _ Herr); reflexivity|right; apply Exists_app; right; apply Exists_app; left; exact Hov]. }
   rewrite (bind2 _ _ _ _ HN) in ERES. cbn [bind] in ERES.
   destruct (section_ren sl tl sfx Hsl Htl Hsl0 Htl0 Htb p Hb v Hpk Q false SAdditional e2 lxr (length p) (N.of_nat (length lxr)) (L1 ++ L2) acc2 Rr (le_n _) eq_refl Hxr (conj Har Hoar) (fun H => ltac:(discriminate H)) I2)
-    as [Herr|(acc3 & L3 & F3 & HR & I3)].
-  { left. rewrite ERES, (bind2 _ _ _ _ Herr). reflexivity. }
+    as [[Herr Hov]|(acc3 & L3 & F3 & N3 & HR & I3)].
+  { left. split; [rewrite ERES, (bind2 _ _ _ _ Herr); reflexivity|right; apply Exists_app; right; apply Exists_app; right; exact Hov]. }
   rewrite (bind2 _ _ _ _ HR) in ERES. cbn [bind] in ERES. right.
   destruct I3 as (_ & _ & Hrecs & Hbo & (X & EX)).
   exists (fst acc3), qls', (L1 ++ L2 ++ L3), X. split; [exact ERES|]. split; [exact Hbo|]. split; [exact Hrenq|].
   split; [apply Forall2_app; [exact F1|apply Forall2_app; [exact F2|exact F3]]|].
+  split; [exact Hnovq|]. split; [apply Forall_app; split; [exact N1|apply Forall_app; split; [exact N2|exact N3]]|].
   split; [rewrite EX; unfold Q; reflexivity|].
   rewrite <- app_assoc in Hrecs. replace (12 + length (wire_of_labels qls') + 4) with (length Q); [exact Hrecs|].
   unfold Q. rewrite !app_length, !firstn_length, skipn_length. lia.
+Qed.
+
+(** ** The renamed packet, when the parser accepts it, reads as the renamed message up to case *)
+Lemma dec_in_wire out : forall ls o, Forall lab ls -> seg out o (wire_of_labels ls) -> dec_in out o ls (o + length (wire_of_labels ls)).
+Proof.
+  induction ls as [|l ls IH]; intros o Hl Hs.
+  - rewrite wire_nil in *. cbn [length]. apply di_root. exact Hs.
+  - rewrite wire_of_labels_cons in *.
+    change (N.of_nat (length l) :: l ++ wire_of_labels ls) with ((N.of_nat (length l) :: l) ++ wire_of_labels ls) in Hs.
+    apply seg_cut in Hs. destruct Hs as [H1 H2]. cbn [length] in H2.
+    apply di_lab; [exact (Forall_inv Hl)|exact H1|].
+    apply (dec_in_eq _ _ _ _ _ _ (IH _ (Forall_inv_tail Hl) H2)); [lia|cbn [length]; rewrite app_length; lia].
+Qed.
+
+Lemma renamed_lab sl tl sfx nl nl' : Forall lab nl -> Forall lab tl -> renamed sl tl sfx nl nl' -> Forall lab nl'.
+Proof.
+  intros Hn Ht [(pre & rest & -> & _ & _ & ->)|(_ & ->)]; [|exact Hn].
+  apply Forall_app in Hn. apply Forall_app. split; [apply Hn|exact Ht].
+Qed.
+
+Lemma ren_rec_shape sl tl sfx p rx rx' : fields_at p (fst rx) /\ rd_shape (fst rx) (snd rx) -> ren_rec sl tl sfx rx rx' ->
+  fields_at p (fst rx') /\ rd_shape (fst rx') (snd rx').
+Proof.
+  destruct rx as [r x], rx' as [r' x']. unfold ren_rec. cbn [fst snd]. intros [Hf Hs] [(ls' & _ & ->) Hrd]. split; [exact Hf|].
+  destruct x, x'; cbn [ren_rd rd_shape rv_with_labels rv_type] in *; try contradiction; try exact Hs.
+  - destruct Hrd as (<- & _). exact Hs.
+  - destruct Hrd as (_ & _ & <-). exact Hs.
+Qed.
+
+Theorem rename_same_message : forall p v sl tl sfx out v', bytes_ok p -> parse p = Ok v ->
+  Forall lab sl -> Forall lab tl -> sl <> [] -> tl <> [] -> bytes_ok (wire_of_labels tl) ->
+  length (wire_of_labels sl) <= 255 -> length (wire_of_labels tl) <= 255 ->
+  renamer_rename v (wire_of_labels tl) (wire_of_labels sl) sfx = Ok out -> parse out = Ok v' ->
+  exists qls qt lxa lxn lxr qls' L' lxa' lxn' lxr',
+    reading p qls qt lxa lxn lxr /\ renamed sl tl sfx qls qls' /\ Forall2 (ren_rec sl tl sfx) (lxa ++ lxn ++ lxr) L' /\
+    reading out qls' qt lxa' lxn' lxr' /\ Forall2 ci_rec L' (lxa' ++ lxn' ++ lxr') /\
+    length lxa' = length lxa /\ length lxn' = length lxn /\ length lxr' = length lxr.
+Proof.
+  intros p v sl tl sfx out v' Hb Hp Hsl Htl Hsl0 Htl0 Htb Hls Hlt Hren Hp'.
+  destruct (rename_content p v sl tl sfx Hb Hp Hsl Htl Hsl0 Htl0 Htb Hls Hlt) as (qls & qt & lxa & lxn & lxr & qe & R & Hcn & Hres).
+  rewrite Hren in Hres. destruct Hres as [[Hc _]|(out0 & qls' & L' & X & Hc0 & Hbo & Hrq & HF & _ & _ & Eout & Hrecs)]; [discriminate|].
+  injection Hc0 as <-.
+  destruct (uncompress_reading out v' Hbo Hp') as (qls2 & qt' & lxa' & lxn' & lxr' & R' & _).
+  pose proof R as [(qe0 & e1 & e2 & Hcn0 & Hqt & Hqc & Hq4 & Ra & Rn & Rr) Hx Han Hns Har].
+  destruct (cname_l_fun _ _ _ _ _ _ Hcn Hcn0) as [_ <-].
+  pose proof R' as [(qe' & e1' & e2' & Hcn' & Hqt' & Hqc' & Hq4' & Ra' & Rn' & Rr') Hx' Han' Hns' Har'].
+  assert (H12 : 12 <= length p) by (destruct Hcn; lia).
+  assert (L12 : length (firstn 12 p) = 12) by (rewrite firstn_length; lia).
+  (* the question name: written in full *)
+  destruct (cname_l_lab _ _ _ _ Hcn) as [Hlabq _].
+  pose proof (renamed_lab _ _ _ _ _ Hlabq Htl Hrq) as Hlabq'.
+  set (q4 := firstn 4 (skipn qe p)) in *.
+  assert (Sq : seg out 12 (wire_of_labels qls')).
+  { exists (firstn 12 p), (q4 ++ X). split; [rewrite Eout, <- !app_assoc; reflexivity|exact L12]. }
+  pose proof (dec_in_wire out qls' 12 Hlabq' Sq) as Hdq.
+  destruct (dec_in_fun out _ _ _ Hdq _ _ (cname_dec_in out 12 qls2 qe' Hbo Hcn')) as [<- <-].
+  assert (Lq4 : length q4 = 4) by (unfold q4; rewrite firstn_length, skipn_length; lia).
+  assert (Sq4 : seg out (12 + length (wire_of_labels qls')) q4).
+  { exists (firstn 12 p ++ wire_of_labels qls'), X. split; [rewrite Eout, <- !app_assoc; reflexivity|rewrite app_length; lia]. }
+  assert (Eqt : qt' = qt).
+  { destruct Hqt' as (h1 & l1 & A1 & A2 & ->). destruct Hqt as (h2 & l2 & B1 & B2 & ->).
+    rewrite <- (Nat.add_0_r (12 + length (wire_of_labels qls'))) in A1. rewrite (seg_nth _ _ _ 0 Sq4) in A1 by lia. rewrite (seg_nth _ _ _ 1 Sq4) in A2 by lia.
+    unfold q4 in A1, A2. rewrite nth_firstn_skipn in A1, A2 by lia. rewrite Nat.add_0_r in A1. congruence. }
+  subst qt'.
+  exists qls, qt, lxa, lxn, lxr, qls', L', lxa', lxn', lxr'. split; [exact R|]. split; [exact Hrq|]. split; [exact HF|]. split; [exact R'|].
+  (* the records *)
+  pose proof (records_at_app _ _ _ _ Ra' _ _ (records_at_app _ _ _ _ Rn' _ _ Rr')) as Rall'. rewrite <- !map_app in Rall'.
+  assert (Hrp : Forall (fun rx => fields_at p (fst rx) /\ rd_shape (fst rx) (snd rx)) (lxa ++ lxn ++ lxr)).
+  { pose proof (records_at_app _ _ _ _ Ra _ _ (records_at_app _ _ _ _ Rn _ _ Rr)) as Rall. rewrite <- !map_app in Rall.
+    clear -Rall Hx. revert Rall Hx. generalize (qe + 4). induction (lxa ++ lxn ++ lxr) as [|rx L IH]; intros o H Hx; [constructor|].
+    cbn [map] in H. destruct (records_cons_inv p _ _ _ _ H) as (_ & Hr & Hrest).
+    constructor; [split; [exact (fields_of_record _ _ _ Hr)|exact (shape_of_rdata _ _ _ _ Hr (Forall_inv Hx))]|apply (IH _ Hrest (Forall_inv_tail Hx))]. }
+  assert (Hrp' : Forall (fun rx => fields_at p (fst rx) /\ rd_shape (fst rx) (snd rx)) L').
+  { clear -Hrp HF. induction HF as [|rx rx' L L' Hr _ IH]; [constructor|].
+    constructor; [exact (ren_rec_shape _ _ _ _ _ _ (Forall_inv Hrp) Hr)|exact (IH (Forall_inv_tail Hrp))]. }
+  pose proof (recs_link p out Hbo _ _ _ _ Hrecs Rall' Hx' Hrp') as Hall.
+  split; [exact Hall|].
+  (* the header counts are those of the input *)
+  assert (Hh : forall i, i < 12 -> nth_error out i = nth_error p i).
+  { intros i Hi. rewrite Eout, <- app_assoc. apply hdr_nth; lia. }
+  assert (Hcnt : forall off site, off + 1 < 12 -> be16_at out off site = be16_at p off site).
+  { intros off site Ho. unfold be16_at, byte_at. rewrite !Hh by lia. reflexivity. }
+  unfold hdr_ancount in Han, Han'. unfold hdr_nscount in Hns, Hns'. unfold hdr_arcount in Har, Har'.
+  rewrite Hcnt in Han', Hns', Har' by lia. rewrite Han in Han'. rewrite Hns in Hns'. rewrite Har in Har'.
+  injection Han' as La. injection Hns' as Ln. injection Har' as Lr. lia.
+Qed.
+
+(** the operation on the packet object, on a packet as the parser returned it: success means the renamed packet was accepted *)
+Theorem rename_effect : forall p v it sl tl sfx s', bytes_ok p -> parse p = Ok v ->
+  Forall lab sl -> Forall lab tl -> sl <> [] -> tl <> [] -> bytes_ok (wire_of_labels tl) ->
+  length (wire_of_labels sl) <= 255 -> length (wire_of_labels tl) <= 255 ->
+  m_rename (wire_of_labels tl) (wire_of_labels sl) sfx (v, it) = (s', Ok tt) ->
+  snd s' = it /\
+  exists qls qt lxa lxn lxr qls' L' lxa' lxn' lxr',
+    reading p qls qt lxa lxn lxr /\ renamed sl tl sfx qls qls' /\ Forall2 (ren_rec sl tl sfx) (lxa ++ lxn ++ lxr) L' /\
+    reading (pp_packet (fst s')) qls' qt lxa' lxn' lxr' /\ Forall2 ci_rec L' (lxa' ++ lxn' ++ lxr') /\
+    length lxa' = length lxa /\ length lxn' = length lxn /\ length lxr' = length lxr.
+Proof.
+  intros p v it sl tl sfx s' Hb Hp Hsl Htl Hsl0 Htl0 Htb Hls Hlt H.
+  unfold m_rename, cbind, getv, clift, putv in H. cbn [fst snd] in H.
+  destruct (renamer_rename v (wire_of_labels tl) (wire_of_labels sl) sfx) as [r| |] eqn:Er; try discriminate.
+  destruct (parse r) as [f| |] eqn:Ef; try discriminate.
+  destruct (negb (edns_summary_same v f)); [discriminate|]. injection H as <-. cbn [fst snd]. split; [reflexivity|].
+  exact (rename_same_message p v sl tl sfx r f Hb Hp Hsl Htl Hsl0 Htl0 Htb Hls Hlt Er Ef).
 Qed.
